@@ -29,7 +29,11 @@ func c47ID(k int) restic.ID {
 
 // a blob with the given capacity carrying a 16-bit token in its first two bytes (cap >= 2)
 func c47Blob(cp int, token int) []byte {
-	b := make([]byte, 2, cp)
+	ln := 2
+	if token%3 == 0 { // a third of the blobs are full (len == cap), the others short slices of a larger buffer
+		ln = cp
+	}
+	b := make([]byte, ln, cp)
 	b[0], b[1] = byte(token), byte(token>>8)
 	return b
 }
@@ -50,7 +54,7 @@ func c47Snap(c *bloblru.Cache) string {
 	for i, k := range keys {
 		items[i] = fmt.Sprintf("(%d%%N, %s)", int(k[0])|int(k[1])<<8, c47BlobTerm(vals[i]))
 	}
-	return fmt.Sprintf("(mkS %d %s)", c.VerifFree(), coqList(items))
+	return fmt.Sprintf("(mkS %s %s)", coqZ(int64(c.VerifFree())), coqList(items))
 }
 
 type c47Op struct {
@@ -127,7 +131,7 @@ func c47Apply(c *bloblru.Cache, o c47Op) (res string) {
 
 func c47RandOp(rng *vrng, size, nids int, token *int) c47Op {
 	id := rng.intn(nids)
-	caps := []int{2, 3, 4, 40, 100, size - bloblru.VerifOverhead, size - bloblru.VerifOverhead + 1, size/2 - bloblru.VerifOverhead, size / 3, 200}
+	caps := []int{2, 3, 4, 40, 100, size - bloblru.VerifOverhead, size - bloblru.VerifOverhead + 1, size/2 - bloblru.VerifOverhead, size / 3, 200, 4096}
 	cp := caps[rng.intn(len(caps))]
 	if cp < 2 {
 		cp = 2
